@@ -44,6 +44,9 @@ type harnessSpec struct {
 	// Overrides: full SSA name of a function -> name of the harness function (same package) that replaces it
 	// in the symbolic run (environment stubs). Natively the harness must not depend on them.
 	Overrides map[string]string
+	// ExtDir: the harness lives in a generated package directory (own go.mod) prepared by checkSpec.Prepare;
+	// Pkg/Files are unused then.
+	ExtDir string
 }
 
 type checkSpec struct {
@@ -192,6 +195,36 @@ func buildTestBinary(id string, h *harnessSpec, overlay string) (string, error) 
 	return bin, nil
 }
 
+// buildExtTestBinary writes the replay test into the generated package directory and compiles its test binary.
+func buildExtTestBinary(id string, h *harnessSpec, names []string) (string, error) {
+	tmpl, err := os.ReadFile(filepath.Join(verifRoot, "harness", "rt", "vx_replay_test.go.txt"))
+	if err != nil {
+		return "", err
+	}
+	pkgName, err := packageNameOf(h.ExtDir)
+	if err != nil {
+		return "", err
+	}
+	var hs strings.Builder
+	for _, nm := range names {
+		fmt.Fprintf(&hs, "\t%q: %s,\n", nm, nm)
+	}
+	ts := strings.Replace(string(tmpl), "package PKG", "package "+pkgName, 1)
+	ts = strings.Replace(ts, "//HARNESSES\n", hs.String(), 1)
+	if err := os.WriteFile(filepath.Join(h.ExtDir, "zz_vx_replay_test.go"), []byte(ts), 0644); err != nil {
+		return "", err
+	}
+	bin := filepath.Join(workDir(id), "replay_"+h.Name+".test")
+	cmd := exec.Command("go", "test", "-c", "-vet=off", "-o", bin, ".")
+	cmd.Dir = h.ExtDir
+	cmd.Env = goEnv()
+	out, err := cmd.CombinedOutput()
+	if err != nil {
+		return "", fmt.Errorf("building replay binary: %v\n%s", err, out)
+	}
+	return bin, nil
+}
+
 // replayNative runs one vector natively and returns the VX-RESULT line plus notes.
 func replayNative(bin string, h *harnessSpec, fn string, vec []uint64, params map[string]int, timeout time.Duration) (result string, out string) {
 	if timeout == 0 {
@@ -201,6 +234,9 @@ func replayNative(bin string, h *harnessSpec, fn string, vec []uint64, params ma
 	defer cancel()
 	cmd := exec.CommandContext(ctx, bin, "-test.run", "^TestVxReplay$", "-test.count=1")
 	cmd.Dir = pkgDir(h.Pkg)
+	if h.ExtDir != "" {
+		cmd.Dir = h.ExtDir
+	}
 	cmd.Env = append(goEnv(), "VX_REPLAY="+vecString(vec, params), "VX_HARNESS="+fn)
 	var buf bytes.Buffer
 	cmd.Stdout = &buf
@@ -321,7 +357,19 @@ func cmdCheck(args []string) int {
 			continue
 		}
 		key := progKey{h.Pkg, strings.Join(h.Files, ",")}
+		if h.ExtDir != "" {
+			key = progKey{h.ExtDir, ""}
+		}
 		ld := progs[key]
+		if ld == nil && h.ExtDir != "" {
+			var err error
+			ld, err = loadProgramAt(h.ExtDir, ".", nil)
+			if err != nil {
+				fmt.Fprintln(os.Stderr, "load:", err)
+				return 2
+			}
+			progs[key] = ld
+		}
 		if ld == nil {
 			ov, _, err := harnessOverlay(h.Pkg, h.Files)
 			if err != nil {
@@ -416,10 +464,20 @@ func cmdCheck(args []string) int {
 		var names []string
 		seenName := map[string]bool{}
 		for k := range spec.Harnesses {
-			if spec.Harnesses[k].Pkg == h.Pkg && strings.Join(spec.Harnesses[k].Files, ",") == strings.Join(h.Files, ",") && !seenName[spec.Harnesses[k].Name] {
+			if spec.Harnesses[k].Pkg == h.Pkg && spec.Harnesses[k].ExtDir == h.ExtDir && strings.Join(spec.Harnesses[k].Files, ",") == strings.Join(h.Files, ",") && !seenName[spec.Harnesses[k].Name] {
 				names = append(names, spec.Harnesses[k].Name)
 				seenName[spec.Harnesses[k].Name] = true
 			}
+		}
+		if h.ExtDir != "" {
+			b, err := buildExtTestBinary(id, h, names)
+			if err != nil {
+				return "", err
+			}
+			for _, n := range names {
+				bins[n] = b
+			}
+			return b, nil
 		}
 		ov, err := nativeOverlay(id, h, names)
 		if err != nil {
